@@ -22,8 +22,12 @@ def _lift(x):
         return NotImplemented
 
 
+_MUL_CACHE = {}
+_POW_CACHE = {}
+
+
 class Poly:
-    __slots__ = ("t",)
+    __slots__ = ("t", "_k")
     __array_priority__ = 1000
 
     def __init__(self, terms=None):
@@ -68,6 +72,27 @@ class Poly:
         o = _lift(o)
         if o is NotImplemented:
             return o
+        # products of small polynomials recur massively in gcmpy's equation loops: memoise them
+        if len(self.t) <= 64 and len(o.t) <= 64:
+            key = (self._key(), o._key())
+            hit = _MUL_CACHE.get(key)
+            if hit is not None:
+                return hit
+            res = self._mul(o)
+            if len(_MUL_CACHE) > 200000:
+                _MUL_CACHE.clear()
+            _MUL_CACHE[key] = res
+            return res
+        return self._mul(o)
+
+    def _key(self):
+        try:
+            return self._k
+        except AttributeError:
+            self._k = frozenset(self.t.items())
+            return self._k
+
+    def _mul(self, o):
         r = {}
         for m1, c1 in self.t.items():
             for m2, c2 in o.t.items():
@@ -102,13 +127,21 @@ class Poly:
             n = int(n)
         if not isinstance(n, int) or n < 0:
             raise TypeError("Poly ** %r" % (n,))
+        ck = (self._key(), n)
+        hit = _POW_CACHE.get(ck)
+        if hit is not None:
+            return hit
+        if len(_POW_CACHE) > 100000:
+            _POW_CACHE.clear()
         r = Poly.const(1)
         b = self
+        n0 = n
         while n:
             if n & 1:
                 r = r * b
             b = b * b
             n >>= 1
+        _POW_CACHE[ck] = r
         return r
 
     def __eq__(self, o):
